@@ -12,7 +12,7 @@ ID = "C15"
 RULE = (
     "Histories (model-based, generated as operation programs that shrink as one value): a generated graph of any family with built-in edges, "
     "numeric-Jacobian custom edges (unary prior, binary relative-pose / distance / range, ternary midpoint) and *shared objects on purpose* (one "
-    "estimate / information / offset object reused by several edges), then up to 50 operations drawn from: edge.calc_error, edge.calc_chi2, "
+    "estimate / information / offset object reused by several edges; a vertex pose object that is also another vertex's pose or an edge's estimate / offset object), then up to 50 operations drawn from: edge.calc_error, edge.calc_chi2, "
     "graph.calc_chi2, calc_jacobians (analytic), BaseEdge.calc_jacobians (numeric fallback), calc_chi2_gradient_hessian, equals (pose / vertex / "
     "edge / graph against clones), to_g2o (strings and file export), pose operators and all Jacobian methods on poses taken from the graph, copy "
     "followed by mutation of the copy, optimize(k), and a fresh-graph differential (every query answers bit-identically on a graph rebuilt from the current state). Invariant after every step: a bit-pattern snapshot of every pose, estimate, offset, "
@@ -77,6 +77,33 @@ def strategy_(g):
             elif what == "off" and ei.get("off") and ej.get("off") and ei["off"]["k"] == ej["off"]["k"]:
                 ei["off"] = ej["off"]
                 share.append([i, j, "off"])
+    # pose objects shared on purpose: a vertex whose pose object is also another vertex's pose (all unknowns initialised
+    # from one `origin` object) or an edge's estimate / offset object (the values are made equal first)
+    vshare = []
+    if g.choice([False, False, True]):
+        for _ in range(rnd.randint(1, 2)):
+            what = rnd.choice(["vertex", "estimate", "offset"])
+            i = rnd.randrange(nv)
+            vi = case["verts"][i]
+            if what == "vertex":
+                cands = [j for j in range(nv) if j != i and case["verts"][j]["p"]["k"] == vi["p"]["k"]]
+                if cands:
+                    j = rnd.choice(cands)
+                    vi["p"] = dict(case["verts"][j]["p"])
+                    vshare.append(["vertex", i, j])
+            elif what == "estimate":
+                cands = [j for j, e in enumerate(case["edges"]) if isinstance(e["z"], dict) and e["z"]["k"] == vi["p"]["k"]]
+                if cands:
+                    j = rnd.choice(cands)
+                    vi["p"] = dict(case["edges"][j]["z"])
+                    vshare.append(["estimate", i, j])
+            else:
+                cands = [j for j, e in enumerate(case["edges"]) if e.get("off") and e["off"]["k"] == vi["p"]["k"]]
+                if cands:
+                    j = rnd.choice(cands)
+                    vi["p"] = dict(case["edges"][j]["off"])
+                    vshare.append(["offset", i, j])
+    case["vshare"] = vshare
     case["share"] = share
     if g.choice([False, False, False, False, True]):
         # nothing fixed at all (optimize(fix_first_pose=False) then solves a singular system: still only poses may change)
@@ -113,6 +140,13 @@ def build_shared(case):
             ei.estimate = ej.estimate
         elif what == "off":
             ei.offset = ej.offset
+    for what, i, j in case.get("vshare", []):
+        if what == "vertex":
+            g._vertices[i].pose = g._vertices[j].pose
+        elif what == "estimate":
+            g._vertices[i].pose = g._edges[j].estimate
+        else:
+            g._vertices[i].pose = g._edges[j].offset
     return g
 
 
@@ -189,7 +223,9 @@ def check(case, ctx):
     GG.classify(case, ctx)
     g = build_shared(case)
     model = snapshot(g)
-    shared = bool(case["share"])
+    shared = bool(case["share"]) or bool(case.get("vshare"))
+    if case.get("vshare"):
+        ctx.event("vertex-pose-object-shared:" + "+".join(sorted(set(w for w, _, _ in case["vshare"]))))
     if shared:
         ctx.event("shared-objects")
     seen_opt = 0
